@@ -305,11 +305,15 @@ fn grant_name(g: &Grant) -> &'static str {
 
 /// Chain src -> sync^(n-2) -> sink from VectorSource, AddConst, VectorSink.
 /// Returns blocks in chain order, the sink hook, and the stream ids.
-fn build_mt_chain(n: usize, total: usize) -> (Vec<Box<dyn Block + Send>>, Hook, Vec<usize>) {
+fn build_mt_chain(n: usize, total: usize, infinite: bool) -> (Vec<Box<dyn Block + Send>>, Hook, Vec<usize>) {
     let data: Vec<Big> = (1..=total as u64).map(Big::of).collect();
     let mut blocks: Vec<Box<dyn Block + Send>> = Vec::new();
     let mut ids = Vec::new();
-    let (b, mut prev) = VectorSource::new(data);
+    let (b, mut prev) = if infinite {
+        VectorSourceBuilder::new(data).repeat(rustradio::Repeat::infinite()).build()
+    } else {
+        VectorSource::new(data)
+    };
     blocks.push(Box::new(b));
     ids.push(StreamWait::verif_id(&prev));
     for _ in 0..n.saturating_sub(2) {
@@ -328,14 +332,16 @@ fn build_mt_chain(n: usize, total: usize) -> (Vec<Box<dyn Block + Send>>, Hook, 
 /// schedule. `sched` (if given) is a list of thread names to prefer in order.
 fn mt_run_one(cfg: &Value, out: &mut impl Write) -> usize {
     let n = cfg["n"].as_u64().unwrap() as usize;
-    let total = cfg["total"].as_u64().unwrap() as usize;
+    // total -1: an infinite source repeating 3 samples (ends only by cancellation)
+    let infinite = cfg["total"].as_i64().unwrap() < 0;
+    let total = if infinite { 3 } else { cfg["total"].as_u64().unwrap() as usize };
     let cap = cfg["cap"].as_u64().unwrap() as usize;
     let seed = cfg["seed"].as_u64().unwrap_or(1);
     let with_cancel = cfg["cancel"].as_bool().unwrap_or(false);
     let order: Vec<usize> = cfg["order"].as_array().map(|a| a.iter().map(|k| k.as_u64().unwrap() as usize).collect())
         .unwrap_or_else(|| (1..=n).collect());
     verif::set_thread_stream_size(cap * 4096);
-    let (blocks, hook, ids) = build_mt_chain(n, total);
+    let (blocks, hook, ids) = build_mt_chain(n, total, infinite);
     let mut g = MTGraph::new();
     let tok = g.cancel_token();
     let mut slots: Vec<Option<Box<dyn Block + Send>>> = blocks.into_iter().map(Some).collect();
@@ -378,7 +384,7 @@ fn mt_run_one(cfg: &Value, out: &mut impl Write) -> usize {
     } else {
         None
     };
-    writeln!(out, "{}", json!({"t": "-", "pt": "config", "g": "go", "n": n, "total": total, "cap": cap,
+    writeln!(out, "{}", json!({"t": "-", "pt": "config", "g": "go", "n": n, "total": if infinite { -1 } else { total as i64 }, "cap": cap,
         "fail": cfg["fail"], "cancel": with_cancel, "order": order, "streams": ids, "seed": seed, "evs": [], "exited": false, "b": 0})).unwrap();
     let sched: Vec<Value> = cfg["sched"].as_array().cloned().unwrap_or_default();
     let mut si = 0usize;
@@ -476,7 +482,12 @@ fn mt_run_one(cfg: &Value, out: &mut impl Write) -> usize {
     // The sink is read only now: every thread has finished (the sink block
     // holds its storage lock across scheduling points).
     let got: Vec<Option<u64>> = hook.data().samples().iter().map(|s| s.val()).collect();
-    let prefix_ok = got.len() <= want.len() && got.iter().zip(want.iter()).all(|(a, b)| *a == Some(*b));
+    let prefix_ok = if infinite {
+        let per: Vec<u64> = want.clone();
+        got.iter().enumerate().all(|(i, a)| *a == Some(per[i % per.len()]))
+    } else {
+        got.len() <= want.len() && got.iter().zip(want.iter()).all(|(a, b)| *a == Some(*b))
+    };
     writeln!(out, "{}", json!({"t": "-", "pt": "final", "g": "go", "evs": [], "exited": false, "b": 0,
         "got": got.len(), "prefix_ok": prefix_ok, "want": want.len()})).unwrap();
     steps + 1
